@@ -162,8 +162,8 @@ impl Check for C18 {
     }
     fn runs(&self, tier: Tier) -> u64 {
         match tier {
-            Tier::Quick => 500,
-            Tier::Thorough => 30_000,
+            Tier::Quick => 8_000,
+            Tier::Thorough => 350_000,
         }
     }
     fn run(&self, tape: &mut Tape, ctx: &RunCtx) -> RunOut {
